@@ -177,6 +177,11 @@ func ZZ_C05_network() {
 	shape := zz.Choose("outage.shape", 6)
 	victim := zz.Choose("outage.victim", n)
 	outage := 1 + zz.Choose("outage.rounds", zz.Param("max_outage", 2))
+	if shape == 1 && zz.Param("long_outage", 0) > 0 && zz.Bool("outage.long") {
+		// a network-wide halt longer than the window in which nodes keep partials (head+4): only the per-tick
+		// re-broadcast on top of the stored head can restart the chain afterwards
+		outage = zz.Param("long_outage", 0)
+	}
 	switch shape {
 	case 0: // one node cut off, the others (>= t) keep going
 		w.isolate(victim, true)
@@ -248,6 +253,11 @@ func ZZ_C05_network() {
 		w.isolate(gone, true)
 	}
 	healed := zz.Param("healed_rounds", 3)
+	if healed < outage+2 {
+		// catching up g missed rounds at one round per catch-up period (half a period) while new rounds keep
+		// coming due takes about g periods: give the network that long, plus a margin
+		healed = outage + 2
+	}
 	catchup := nw.group.CatchupPeriod
 	for r := 0; r < healed; r++ {
 		// one period, in catch-up-period steps so that catch-up timers fire in between ticks
